@@ -367,8 +367,8 @@ def flush(ctx, rep, T):
     # flush paths, decided by a truth table over (flag raised, multi-file) on the inlined views of the two drivers: the
     # definition of CodableVoid (a template containing `struct CodableVoid`) is emitted by end_file iff flag ∧ ¬multi and
     # by post_generation iff flag ∧ multi — whatever helpers, early returns or operand order the code uses
-    ef = ctx.fnx('Swift::end_file', file='swift.rs', force=('write_codable_file', 'write_codable'))
-    pg = ctx.fnx('Swift::post_generation', file='swift.rs', force=('write_codable_file', 'write_codable'))
+    ef = ctx.fnx('Swift::end_file', file='swift.rs', force=('write_codable_file', 'write_codable'), depth=4)
+    pg = ctx.fnx('Swift::post_generation', file='swift.rs', force=('write_codable_file', 'write_codable'), depth=4)
 
     def def_sites(v):
         out = []
@@ -376,6 +376,12 @@ def flush(ctx, rep, T):
             lits = ''.join(str(x.get('v', '')) for x in vt.walk(st['fmt']) if x.get('k') == 'lit') + ''.join(p2.get('lit', '') for x in vt.walk(st['fmt']) if x.get('k') == 'fmt' for p2 in x.get('parts', []) if isinstance(p2, dict))
             if re.search(r'struct\s+CodableVoid', lits):
                 out.append(st)
+        # the definition may also be handed to the file system in one piece (`fs::write(path, self.definition().into_bytes())`)
+        for c in v['calls']:
+            if str(c.get('f', '')).replace(' ', '').split('::')[-1] == 'write' and c.get('recv') is None and len(c.get('args', [])) == 2:
+                lits = ''.join(str(x.get('v', '')) for x in vt.walk(c['args'][1]) if x.get('k') == 'lit') + ''.join(p2.get('lit', '') for x in vt.walk(c['args'][1]) if x.get('k') == 'fmt' for p2 in x.get('parts', []) if isinstance(p2, dict))
+                if re.search(r'struct\s+CodableVoid', lits):
+                    out.append({'guard': c.get('guard', []), 'fmt': c['args'][1], 'line': c.get('line')})
         return out
 
     def emits(v, flag, multi):
